@@ -1,7 +1,9 @@
 package snapshot
 
-// Abstract file system with crash points (DESIGN 4.2), shared by the C07 and C08 harnesses (the
-// file is identical in both directories).
+// Abstract file system with crash points (DESIGN 4.2). It started as the file shared with the C07
+// harness; the C08 copy has since been extended with crashes INSIDE non-atomic calls (see "Crashes
+// inside a call" below), a crash point at io.Copy and a database model whose header records the
+// size of the database (a truncated database file is a malformed one, as for SQLite).
 //
 // Symbolic run: spec.json "models" maps the os / filepath / fsutil / sidecar / rsum / db / plan
 // helpers the code under test calls onto the v* functions below. The file system is a tree keyed
@@ -28,6 +30,27 @@ package snapshot
 // models with a crash point are the same, so position k is the same place in both worlds.
 // db.CheckpointRemove has a second crash point inside (WAL content already in the database file,
 // -wal file not yet deleted).
+//
+// Crashes inside a call. Only rename and the removal of one entry are atomic. When the scenario
+// asks for it (vCr.mode), the call at the chosen crash point can also be cut short ("crashPart<i>"
+// > 0 for the i-th process of the scenario):
+//   os.WriteFile, os.Create (+ what is written to the file up to the next mutating call: writeMeta),
+//   sidecar.WriteFile, io.Copy into a file:
+//           the file exists and holds a strict PREFIX of what the call would have written. The cut
+//           positions are counted from the start (0, 1, 2 ... 63) and from the end (size-1 ...
+//           size-64); vPartThin uses {0, 1, 16, size-1}, vPartFull all of them - for the model's
+//           files (at most 102 bytes) that is every length. The call goes ahead and the process is
+//           stopped at the NEXT crash point (or when the start returns), where the file is cut:
+//           between the two the process only reads, so the state on disk is the one a process
+//           killed inside the call leaves. This is done the same way in both worlds.
+//   os.RemoveAll, fsutil.RemoveDirSync:
+//           a subset of the entries below the path is gone (children before their directory, the
+//           path itself stays). vPartThin: the first k entries in sorted depth-first order, or in
+//           reverse sorted order; vPartFull: EVERY subset that removing entry by entry in some
+//           order can leave (one choice "crashRm<i>:<relative path>" per entry).
+//   os.MkdirAll: only some of the missing ancestors were created.
+// The partial effect is produced by the same harness code in both worlds (os.ReadDir / os.Remove /
+// os.Stat / os.MkdirAll are the models in the symbolic run), only the truncation of a file differs.
 
 import (
 	"bytes"
@@ -66,6 +89,14 @@ const (
 	vOpEnsureWAL   = "github.com/rqlite/rqlite/v10/db.EnsureWALMode"
 	vOpSidecar     = "github.com/rqlite/rqlite/v10/snapshot/sidecar.WriteFile"
 	vOpRemoveDirSy = "github.com/rqlite/rqlite/v10/internal/fsutil.RemoveDirSync"
+	vOpIoCopy      = "io.Copy"
+)
+
+// how much of "a crash inside a call" a process of the scenario explores
+const (
+	vPartNone = 0 // the call in flight does not happen at all
+	vPartThin = 1
+	vPartFull = 2
 )
 
 var vCr struct {
@@ -75,6 +106,12 @@ var vCr struct {
 	op     string // the call that did not happen
 	path   string // its first argument
 	hooked bool
+	seq    int  // which process of the scenario this is (names the choices)
+	mode   int  // vPartNone / vPartThin / vPartFull
+	part   int  // 0: the call in flight did not happen; > 0: which partial effect it had
+	cut    int  // part > 0, a file: the number of bytes that reached the disk
+	gone   int  // part > 0, a removal: the number of entries that are gone
+	pend   bool // the call in flight goes ahead, the process stops at the next crash point
 }
 
 // vPoint is the crash point before a mutating call.
@@ -82,11 +119,170 @@ func vPoint(op, p string) {
 	if !vCr.armed {
 		return
 	}
+	if vCr.pend {
+		vDie()
+	}
 	vCr.count++
-	if vCr.count == vCr.at {
-		vCr.armed = false
-		vCr.op, vCr.path = op, p
-		panic(vCrash{})
+	if vCr.count != vCr.at {
+		return
+	}
+	vCr.op, vCr.path = op, p
+	if vCr.mode != vPartNone {
+		switch op {
+		case vOpWriteFile, vOpCreate, vOpIoCopy, vOpSidecar:
+			n := len(vCutSpecs())
+			k := verifChoice(verifName("crashPart", vCr.seq), n+1)
+			verifAssume(k <= n)
+			if k > 0 {
+				vCr.part, vCr.pend = k, true
+				return // the call happens; what it wrote is cut at the next crash point
+			}
+		case vOpRemoveAll, vOpRemoveDirSy:
+			vCr.armed = false
+			vPartialRemoveAll(p)
+		case vOpMkdirAll:
+			vCr.armed = false
+			vPartialMkdirAll(p)
+		}
+	}
+	vDie()
+}
+
+// vDie stops the process. A call that was allowed to go ahead is cut back to its prefix first.
+func vDie() {
+	vCr.armed = false
+	if vCr.pend {
+		vCr.pend = false
+		vApplyCut()
+	}
+	panic(vCrash{})
+}
+
+// vCutSpecs: the cut positions a partially written file is tried with. s < 64: s bytes; s >= 64:
+// all but the last s-63 bytes.
+func vCutSpecs() []int {
+	if vCr.mode == vPartThin {
+		return []int{0, 1, 16, 64}
+	}
+	out := make([]int, 128)
+	for i := range out {
+		out[i] = i
+	}
+	return out
+}
+
+func vCutAt(spec, size int) int {
+	if spec < 64 {
+		return spec
+	}
+	return size - (spec - 63)
+}
+
+// vApplyCut cuts the file the interrupted call wrote. A position that is not a strict prefix, or
+// that an earlier choice stands for already, is not a scenario (the path is dropped).
+func vApplyCut() {
+	fi, err := os.Stat(vCr.path)
+	verifAssume(err == nil && !fi.IsDir())
+	size := int(fi.Size())
+	specs := vCutSpecs()
+	cut := vCutAt(specs[vCr.part-1], size)
+	lo := 0
+	if vCr.op == vOpIoCopy {
+		lo = 1 // nothing copied yet: that is the crash before the copy
+	}
+	verifAssume(cut >= lo && cut < size)
+	for _, s := range specs[:vCr.part-1] {
+		verifAssume(vCutAt(s, size) != cut)
+	}
+	vCr.cut = cut
+	if verifSymbolic() {
+		n := vFS.file(vCr.path)
+		n.data = n.data[:cut]
+		n.plan = nil
+		return
+	}
+	vMust(os.Truncate(vCr.path, int64(cut)))
+}
+
+// vTreePost lists the entries below dir, children before their directory, dir itself last;
+// siblings in sorted order, or in reverse sorted order.
+func vTreePost(dir string, reverse bool) []string {
+	var out []string
+	ents, _ := os.ReadDir(dir)
+	for i := range ents {
+		e := ents[i]
+		if reverse {
+			e = ents[len(ents)-1-i]
+		}
+		p := filepath.Join(dir, e.Name())
+		if e.IsDir() {
+			out = append(out, vTreePost(p, reverse)...)
+		} else {
+			out = append(out, p)
+		}
+	}
+	return append(out, dir)
+}
+
+// vPartialRemoveAll: the process dies inside the removal of the tree at path.
+func vPartialRemoveAll(path string) {
+	if !vIsDir(path) {
+		return
+	}
+	list := vTreePost(path, false)
+	m := len(list)
+	if m < 2 {
+		return
+	}
+	if vCr.mode == vPartThin {
+		k := verifChoice(verifName("crashPart", vCr.seq), 2*(m-1)+1)
+		verifAssume(k <= 2*(m-1))
+		vCr.part = k
+		if k > m-1 {
+			k -= m - 1
+			list = vTreePost(path, true)
+		}
+		for _, p := range list[:k] {
+			vMust(os.Remove(p))
+		}
+		vCr.gone = k
+		return
+	}
+	k := verifChoice(verifName("crashPart", vCr.seq), 2)
+	verifAssume(k <= 1)
+	vCr.part = k
+	if k == 0 {
+		return
+	}
+	for _, p := range list[:m-1] {
+		if vIsDir(p) && len(vList(p)) > 0 {
+			continue // something below it stays
+		}
+		if verifChoice("crashRm"+string(rune('0'+vCr.seq))+":"+p[len(path):], 2) == 1 {
+			vMust(os.Remove(p))
+			vCr.gone++
+		}
+	}
+	verifAssume(vCr.gone > 0)
+}
+
+// vPartialMkdirAll: the process dies after it created some, not all, of the missing directories.
+func vPartialMkdirAll(path string) {
+	var missing []string
+	for p := path; !vExists(p); p = filepath.Dir(p) {
+		missing = append([]string{p}, missing...)
+		if filepath.Dir(p) == p {
+			break
+		}
+	}
+	if len(missing) < 2 {
+		return
+	}
+	k := verifChoice(verifName("crashPart", vCr.seq), len(missing))
+	verifAssume(k < len(missing))
+	vCr.part = k
+	if k > 0 {
+		vMust(os.MkdirAll(missing[k-1], 0o755))
 	}
 }
 
@@ -110,6 +306,9 @@ func vCheckpointPoints(p string, half func()) {
 // vNativeHook is verifhook.Hook in the native replay.
 func vNativeHook(op string, arg any) {
 	p, _ := arg.(string)
+	if f, ok := arg.(*os.File); ok {
+		p = f.Name()
+	}
 	if op == vOpCheckpoint {
 		vCheckpointPoints(p, func() { vNativeHalfCheckpoint(p) })
 		return
@@ -129,12 +328,17 @@ func vNativeHalfCheckpoint(p string) {
 
 // vRunCrash runs f with the process dying at crash point `at` (0: never). It reports whether
 // the process died; vCr.count is then the number of points passed.
-func vRunCrash(at int, f func()) (crashed bool) {
+func vRunCrash(at int, f func()) (crashed bool) { return vRunCrashPart(at, 0, vPartNone, f) }
+
+// vRunCrashPart: the same for the seq-th process of a scenario, whose call in flight may also be
+// cut short (mode).
+func vRunCrashPart(at, seq, mode int, f func()) (crashed bool) {
 	if !verifSymbolic() && !vCr.hooked {
 		verifhook.Hook = vNativeHook
 		vCr.hooked = true
 	}
 	vCr.armed, vCr.count, vCr.at, vCr.op, vCr.path = true, 0, at, "", ""
+	vCr.seq, vCr.mode, vCr.part, vCr.cut, vCr.gone, vCr.pend = seq, mode, 0, 0, 0, false
 	defer func() {
 		vCr.armed = false
 		if r := recover(); r != nil {
@@ -146,6 +350,12 @@ func vRunCrash(at int, f func()) (crashed bool) {
 		}
 	}()
 	f()
+	if vCr.pend {
+		// the cut call was the last mutating call of the start: the process dies right after it
+		vCr.armed, vCr.pend = false, false
+		vApplyCut()
+		return true
+	}
 	return false
 }
 
@@ -563,16 +773,20 @@ func vGzipNewReader(r io.Reader) (*gzip.Reader, error) {
 
 func vGzipClose(z *gzip.Reader) error { return nil }
 
-// io.Copy between files, or from a gzip reader into a file (the whole content arrives at once: the
-// destination is only looked at after the copy, or thrown away after a crash).
+// io.Copy between files, or from a gzip reader into a file. One crash point; a crash inside the
+// copy leaves a prefix of the content (vPoint).
 func vIoCopy(dst io.Writer, src io.Reader) (int64, error) {
 	df, ok := dst.(*os.File)
 	if !ok {
 		panic("verif-fs: io.Copy into something else than a file")
 	}
+	vPoint(vOpIoCopy, vHandleOf(df).path)
 	dn := vFS.file(vHandleOf(df).path)
 	if dn == nil {
 		return 0, vErrNotExist
+	}
+	if len(dn.data) != 0 {
+		panic("verif-fs: io.Copy into a file that is not empty")
 	}
 	var data []byte
 	switch s := src.(type) {
@@ -604,7 +818,9 @@ func vIoCopy(dst io.Writer, src io.Reader) (int64, error) {
 //
 // meta.json : 'M' index(8) term(8) len(id)(1) id, optionally followed by '\n'
 // sidecar   : 'C' crc(4)
-// database  : vSQLiteHdr followed by one byte per applied WAL ("tokens")
+// database  : vSQLiteHdr followed by one byte per applied WAL ("tokens"); header byte 31 (the low
+//             byte of SQLite's in-header database size) holds the number of tokens, so a database
+//             file that lost its end is malformed, not an older database
 // WAL       : vWALHdr followed by its tokens
 // v7 state  : 16 header bytes, then a gzip stream ('Z' + database content)
 
@@ -727,7 +943,15 @@ func vApplyWAL(dbData, walData []byte) []byte {
 			out = append(out, t)
 		}
 	}
+	if len(out) >= len(vSQLiteHdr) && !vMalformedDB(dbData) {
+		out[31] = byte(len(out) - len(vSQLiteHdr))
+	}
 	return out
+}
+
+// vMalformedDB: the content is not a whole database (its header is cut, or promises another size).
+func vMalformedDB(data []byte) bool {
+	return len(data) < len(vSQLiteHdr) || int(data[31]) != len(data)-len(vSQLiteHdr)
 }
 
 // db.CheckpointRemove
